@@ -419,6 +419,8 @@ class AclMachine(Machine):
                 gc.collect()
                 self.faults["gc_collect"] += 1
                 return "ok"
+            if k == "move_item":
+                return self._op_move_item(op)
             if k == "drop":
                 if len(self.slots) > 1:
                     self.slots.pop(op.get("t", 0) % len(self.slots))
@@ -484,6 +486,41 @@ class AclMachine(Machine):
             self.slots[op.get("t", 0) % 2] = slot
         self.probes["fresh_prestate_steps"] += 1
         self.check_state(slot, "after create", op=op)
+        return "ok"
+
+    def _op_move_item(self, op):
+        """An item taken out of one live ACL and inserted into another (same platform)."""
+        if len(self.slots) < 2:
+            return "noop"
+        a, b = self.slots[op["t"] % 2], self.slots[(op["t"] + 1) % 2]
+        ma, mb = a["m"], b["m"]
+        if not ma.blocks or (ma.platform, ma.version, ma.type, ma.port_nr, ma.protocol_nr) != \
+                (mb.platform, mb.version, mb.type, mb.port_nr, mb.protocol_nr):
+            return "noop"
+        i = op["i"] % len(ma.blocks)
+        blk = ma.blocks[i]
+        for r in blk.rules:
+            if r.kind == "ace":
+                for ad in (r.src, r.dst):
+                    if ad.group:
+                        other = [x for o in mb.flat() if o.kind == "ace" for x in (o.src, o.dst)
+                                 if x.group == ad.group]
+                        if any(tuple(x.members or ()) != tuple(ad.members or ()) for x in other):
+                            return "noop"  # one definition per group name
+        j = op["j"] % (len(mb.blocks) + 1)
+        pre_a, pre_b = a["acl"].line, b["acl"].line
+        item = a["acl"].pop(i)
+        b["acl"].insert(j, item)
+        ma2, mb2 = ma.clone(), mb.clone()
+        moved = ma2.blocks.pop(i)
+        mb2.blocks.insert(j, moved)
+        a["m"], b["m"] = ma2, mb2
+        a["age"] = a.get("age", 0) + 1
+        b["age"] = b.get("age", 0) + 1
+        self.changing_steps += 1
+        self.probes["items_moved_between_acls"] += 1
+        self.check_state(a, "giver after move_item", op=op)
+        self.check_state(b, "taker after move_item", op=op)
         return "ok"
 
     def _op_create_cfg(self, op):
@@ -1375,6 +1412,9 @@ class AclMachine(Machine):
                 return dict(op="gc_collect")
             if cfg["gc_events"] and r < 0.045 and len(self.slots) > 1:
                 return dict(op="drop", t=s.randrange(2))
+            if len(self.slots) > 1 and 0.10 <= r < 0.16:
+                return dict(op="move_item", t=s.randrange(2), i=s.randint(0, 50),
+                            j=s.randint(0, 50))
             if cfg["memo_faults"] and r < 0.06:
                 return dict(op="memo_clear")
             if cfg["memo_faults"] and r < 0.10:
